@@ -223,6 +223,7 @@ func (e *Exec) argFacts(st *State, v Val) {
 	if len(v.Tup) > 0 {
 		return
 	}
+	e.refTyped(v)
 	a := e.allocCtr(st)
 	switch unalias(v.T).Underlying().(type) {
 	case *types.Pointer, *types.Map, *types.Chan:
@@ -394,6 +395,13 @@ func (e *Exec) script(o *Obligation, withModel bool, focused bool) string {
 			hit := false
 			if focused && it.Key != "" {
 				hit = needed[it.Key]
+			} else if focused && allocOnly(it.syms) {
+				// monotonicity chain of the allocation counter: cheap, always relevant once a counter is needed
+				for _, s := range it.syms {
+					if needed[s] {
+						hit = true
+					}
+				}
 			} else {
 				for _, s := range relSyms(&items[i]) {
 					if needed[s] && !hub[s] {
@@ -562,4 +570,23 @@ var omGroups = map[string][]string{
 	"resourceVersion": {"OM_resourceVersion"},
 	"namespace":       {"OM_namespace"},
 	"content":         {"content"},
+}
+
+func allocOnly(syms []string) bool {
+	n := 0
+	for _, s := range syms {
+		if strings.HasPrefix(s, "ALLOC") {
+			n++
+			continue
+		}
+		switch s {
+		case "assert", ">=", "<=", ">", "<", "=", "and", "=>", "ite":
+			continue
+		}
+		if strings.HasPrefix(s, "ref_") {
+			continue
+		}
+		return false
+	}
+	return n > 0
 }
